@@ -293,5 +293,108 @@ pub fn run(r: &mut Runner) -> &'static str {
         None
     };
     r.bulk("c08.zero-run-shapes", Some("all 256 x 256 pairs of IPv6 zero-group masks (every shape `::` compression can meet)"), &work, &judge);
+
+    // single-component sweeps: every port value in each of the four port roles, every octet value in each of the eight
+    // IPv4 octet roles, every group value in each of the sixteen IPv6 group roles (other components fixed, distinct)
+    let full = !r.quick();
+    let sweep = |shard: usize, nshards: usize, st: &mut Stats, stop: &std::sync::atomic::AtomicBool| -> Option<(Case, Fail)> {
+        let mut idx = 0u64;
+        let mut run = |c: &dyn Fn() -> Case, st: &mut Stats| -> Option<(Case, Fail)> {
+            idx += 1;
+            if idx % nshards as u64 != shard as u64 {
+                return None;
+            }
+            let c = c();
+            match judge(&c, st) {
+                Err(f) => Some((c, f)),
+                Ok(()) => None,
+            }
+        };
+        let b4 = RefAddr::Tcp4 { src: [10, 20, 30, 40], dst: [50, 60, 70, 80], sport: 1111, dport: 2222 };
+        let b6 = RefAddr::Tcp6 { src: [0x11, 0x222, 0x3333, 0x4, 0x55, 0x666, 0x7777, 0x8], dst: [0x99, 0xaaa, 0xbbbb, 0xc, 0xdd, 0xeee, 0xffff, 0x1], sport: 1111, dport: 2222 };
+        for v in 0..=65535u16 {
+            if v % 1024 == 0 && stop.load(std::sync::atomic::Ordering::Relaxed) {
+                return None;
+            }
+            for role in 0..4 {
+                let mk = || {
+                    let mut a = if role < 2 { b4.clone() } else { b6.clone() };
+                    match &mut a {
+                        RefAddr::Tcp4 { sport, dport, .. } | RefAddr::Tcp6 { sport, dport, .. } => {
+                            if role % 2 == 0 {
+                                *sport = v
+                            } else {
+                                *dport = v
+                            }
+                        }
+                        _ => {}
+                    }
+                    Case(a)
+                };
+                if let Some(f) = run(&mk, st) {
+                    return Some(f);
+                }
+            }
+        }
+        for v in 0..=255u8 {
+            for role in 0..8usize {
+                let mk = || {
+                    let mut a = b4.clone();
+                    if let RefAddr::Tcp4 { src, dst, .. } = &mut a {
+                        if role < 4 {
+                            src[role] = v
+                        } else {
+                            dst[role - 4] = v
+                        }
+                    }
+                    Case(a)
+                };
+                if let Some(f) = run(&mk, st) {
+                    return Some(f);
+                }
+            }
+        }
+        let step: usize = if full { 1 } else { 5 };
+        for role in 0..16usize {
+            let mut v = role % step;
+            while v <= 0xffff {
+                if v % 1024 < step && stop.load(std::sync::atomic::Ordering::Relaxed) {
+                    return None;
+                }
+                // in an otherwise non-zero address and in an otherwise all-zero one
+                for zero_rest in [false, true] {
+                    let mk = || {
+                        let mut a = b6.clone();
+                        if let RefAddr::Tcp6 { src, dst, .. } = &mut a {
+                            if zero_rest {
+                                if role < 8 {
+                                    *src = [0; 8]
+                                } else {
+                                    *dst = [0; 8]
+                                }
+                            }
+                            if role < 8 {
+                                src[role] = v as u16
+                            } else {
+                                dst[role - 8] = v as u16
+                            }
+                        }
+                        Case(a)
+                    };
+                    if let Some(f) = run(&mk, st) {
+                        return Some(f);
+                    }
+                }
+                v += step;
+            }
+        }
+        None
+    };
+    let sspace = if full {
+        "every port 0..=65535 in each of the 4 port roles (TCP4/TCP6 x source/destination); every octet 0..=255 in each of the 8 IPv4 octet roles; every group 0..=0xffff in each of the 16 IPv6 group roles, in an otherwise non-zero and in an otherwise all-zero address"
+    } else {
+        "every port 0..=65535 in each of the 4 port roles (TCP4/TCP6 x source/destination); every octet 0..=255 in each of the 8 IPv4 octet roles; every 5th group value 0..=0xffff in each of the 16 IPv6 group roles, in an otherwise non-zero and in an otherwise all-zero address"
+    };
+    r.bulk("c08.component-sweep", Some(sspace), &sweep, &judge);
     "exploration"
 }
